@@ -137,6 +137,11 @@ def stressCases : G (List String) := do
       let hdr : SorensonHdr := { version := 1, tr := 3, sizeCode := code, customW := w, customH := h, picType := 0,
                                  deblock := false, quant := 31, extra := [] }
       out := s!"P 1 d:{hexOf { p with hdr := .sorenson hdr }}" :: out
+  -- dimensions at the top of the u16 range (the other one small, so that the planes still fit in memory)
+  for (w, h) in [(65535, 16), (16, 65535), (65521, 1), (1, 65521), (65520, 2), (65535, 1), (32768, 3), (4097, 17)] do
+    let hdr : SorensonHdr := { version := 0, tr := 9, sizeCode := 1, customW := w, customH := h, picType := 0,
+                               deblock := false, quant := 5, extra := [] }
+    out := s!"P 1 d:{hexOf { hdr := .sorenson hdr, mbs := [] }}" :: out
   -- 11-bit escape levels at every quantizer
   for q in [1, 16, 17, 30, 31] do
     for lvl in [(1023 : Int), -1023, 529, -529, 528, 964] do
